@@ -202,9 +202,8 @@ func GosymH_C14_bookkeeping() {
 	}
 	if len(w.running)+len(w.starting) == 0 {
 		gosym_Assert(w.state == StateIdle, "worker-idle-when-nothing-runs")
-	} else {
-		gosym_Assert(w.state == StateRunning, "worker-running-while-processes-remain")
 	}
+	// (the Idle -> Running transition for newly detected processes is made by probeAndUpdate, the caller)
 	gosym_Reach("done")
 }
 
